@@ -73,48 +73,45 @@ func rulesC09(c *Ctx) {
 		}
 		c.Need(isEOF != nil && lineVar != nil && errVar != nil, "scanEvents: line, err, isEOF")
 		// read errors other than EOF are yielded as errors and end the iteration
+		// decided by evaluating the branch conditions under "err is non-nil and is not io.EOF": whatever is reachable then
+		// contains no dispatch, and no exit is reachable without yielding a non-nil error first
+		readErrLeaf := func(e ast.Expr) tri {
+			if x, trueWhenNil, isNil := NilTest(e); isNil && body.ObjOf(x) == errVar {
+				if trueWhenNil {
+					return triFalse
+				}
+				return triTrue
+			}
+			if ce, isC := ast.Unparen(e).(*ast.CallExpr); isC && body.IsCallTo(ce, errIs) && len(ce.Args) == 2 && body.ObjOf(ce.Args[0]) == errVar && body.ObjOf(ce.Args[1]) == ioEOF {
+				return triFalse
+			}
+			return triUnknown
+		}
+		yieldsErr := func(v int) bool {
+			for _, call := range body.AllCalls(g.Node(v), false) {
+				if body.ObjOf(call.Fun) == types.Object(yieldParam) && len(call.Args) == 2 && !isNilIdent(call.Args[1]) {
+					return true
+				}
+			}
+			return false
+		}
+		underErr := g.ReachUnder(readErrLeaf, nil)
+		noYield := g.ReachUnder(readErrLeaf, yieldsErr)
 		okErr := false
-		for _, cv := range g.condVertices() {
-			cond := g.Node(cv - 1).(ast.Expr)
-			b, isB := ast.Unparen(cond).(*ast.BinaryExpr)
-			if !isB || b.Op != token.LAND {
-				continue
+		for v, in := range underErr {
+			if in && yieldsErr(v) {
+				okErr = true
 			}
-			x, twn, isNil := NilTest(b.X)
-			u, isNot := ast.Unparen(b.Y).(*ast.UnaryExpr)
-			if !isNil || twn || body.ObjOf(x) != errVar || !isNot || u.Op != token.NOT {
-				continue
+		}
+		for _, v2 := range g.callVerticesOfVar(dispatch) {
+			if underErr[v2] {
+				okErr = false
 			}
-			ce, isC := ast.Unparen(u.X).(*ast.CallExpr)
-			if !isC || !body.IsCallTo(ce, errIs) || body.ObjOf(ce.Args[1]) != ioEOF {
-				continue
+		}
+		for _, x := range g.Exits {
+			if noYield[x] && !yieldsErr(x) {
+				okErr = false
 			}
-			t, _ := g.BranchTargets(cv - 1)
-			// the branch yields a non-nil error and returns
-			okp, _ := g.MustPassIncl(t, g.Exits, func(v int) bool {
-				for _, call := range body.AllCalls(g.Node(v), false) {
-					if body.ObjOf(call.Fun) == types.Object(yieldParam) && len(call.Args) == 2 && !isNilIdent(call.Args[1]) {
-						return true
-					}
-				}
-				return false
-			})
-			first := g.Node(t)
-			if first != nil {
-				for _, call := range body.AllCalls(first, false) {
-					if body.ObjOf(call.Fun) == types.Object(yieldParam) && len(call.Args) == 2 && !isNilIdent(call.Args[1]) {
-						okp = true
-					}
-				}
-			}
-			seen, _ := g.reach([]int{t}, nil, nil)
-			loops := false
-			for _, v2 := range g.callVerticesOfVar(dispatch) {
-				if seen[v2] {
-					loops = true
-				}
-			}
-			okErr = okp && !loops
 		}
 		c.Check(okErr, "scanEvents:read-error-is-terminal", body, nil, "a read error other than io.EOF is yielded as an error and ends the iteration without dispatching")
 		// dispatch sites
@@ -615,11 +612,17 @@ func ruleStreamNeverSilent(c *Ctx) {
 			}
 		}
 		if !failed && !byClient && !unres {
-			// `if ctx.Err() == nil { c.fail(…) }; return` in any spelling: assuming the caller's context is alive, this return
-			// is unreachable without passing a fail call
+			// in any spelling (one condition with ||, several ifs, `if ctx.Err() == nil { c.fail(…) }; return`): assuming
+			// the caller's context is alive and the client is not closed, and assuming in turn that the cursor is
+			// non-empty / that there is no call, this return is unreachable without passing a fail call
 			hctx := hs.CtxParam()
-			seen := hg.ReachUnder(func(e ast.Expr) tri {
-				x, twn, ok := NilTest(ast.Unparen(e))
+			reqParam := types.Object(hs.ParamOfNamed(pJ, "Request"))
+			base := func(e ast.Expr) tri {
+				e = ast.Unparen(e)
+				if hs.ObjOf(e) == closedVar {
+					return triFalse
+				}
+				x, twn, ok := NilTest(e)
 				if !ok {
 					return triUnknown
 				}
@@ -635,15 +638,44 @@ func ruleStreamNeverSilent(c *Ctx) {
 					return triTrue
 				}
 				return triFalse
-			}, func(v int) bool {
+			}
+			blocked := func(v int) bool {
 				for _, fv := range fvs {
 					if v == fv {
 						return true
 					}
 				}
 				return false
-			})
-			failed = !seen[rv]
+			}
+			cursorSet := func(e ast.Expr) tri {
+				if t := base(e); t != triUnknown {
+					return t
+				}
+				if x, y, op, ok := binaryCmp(ast.Unparen(e)); ok && hs.ObjOf(x) == cursorVar {
+					if s, isC := hs.ConstString(y); isC && s == "" {
+						if op == token.EQL {
+							return triFalse
+						}
+						if op == token.NEQ {
+							return triTrue
+						}
+					}
+				}
+				return triUnknown
+			}
+			noCall := func(e ast.Expr) tri {
+				if t := base(e); t != triUnknown {
+					return t
+				}
+				if x, twn, ok := NilTest(ast.Unparen(e)); ok && hs.ObjOf(x) == reqParam {
+					if twn {
+						return triTrue
+					}
+					return triFalse
+				}
+				return triUnknown
+			}
+			failed = !hg.ReachUnder(cursorSet, blocked)[rv] && !hg.ReachUnder(noCall, blocked)[rv]
 		}
 		c.Check(byClient || unres || failed, "handleSSE:return#"+itoa(i), hs, r, "handleSSE stops only because the client closed, because the call was already failed as unresumable, or after marking the connection failed (unless the caller's ctx ended) (guards: %s)", atomsString(guards))
 	}
